@@ -43,6 +43,7 @@ const (
 	pElem
 	pGlobal
 	pOpaque
+	pArr // pointer to an array object that lives in element memory (Sl describes it)
 )
 
 type Ptr struct {
@@ -151,6 +152,9 @@ func leavesOf(t types.Type) []leaf {
 func joinLeaf(a, b string) string {
 	if b == "" {
 		return a
+	}
+	if a == "" {
+		return b
 	}
 	return a + "." + b
 }
@@ -415,7 +419,7 @@ func (e *Enc) eqVal(a, b Val) T {
 	switch x := a.(type) {
 	case Sc:
 		if y, ok := b.(Sc); ok && x.Sort == y.Sort {
-			return eq(x.T, y.T)
+			return e.eqScalar(x.T, y.T)
 		}
 	case Str:
 		if y, ok := b.(Str); ok {
